@@ -66,6 +66,12 @@ def gen_schema(rng, fragment):
         ck = rng.random() < 0.25
         if ck: scal += [{'name': 'c0', 'req': False, 'unique': False}, {'name': 'c1', 'req': False, 'unique': False}]
         ents.append({'pk': pk, 'scalars': scal, 'ckey': ck})
+    if not fragment and rng.random() < 0.45:
+        # hook-bearing entities (outside the Lean model): before_insert / before_update / before_delete run the shared query helpers
+        # (World.helper) that the application's reads use as well - same query keys, so a result cached by the hook's query (it sees the
+        # database as it was: flushing is disabled inside hooks) must be gone when the flush has written its rows
+        for ed in ents:
+            if rng.random() < 0.75: ed['hooks'] = sorted(set(rng.choice(['insert', 'update', 'delete', 'insert', 'update']) for _ in range(rng.choice([1, 2, 3]))))
     rels = []
     for i in range(rng.choice([1, 1, 2, 2, 3])):
         kind = rng.choice(['o2o', 'm2o', 'm2o', 'm2o', 'm2m', 'm2m', 'sym1', 'symm'])
@@ -95,7 +101,11 @@ def gen_schema(rng, fragment):
 
 
 def schema_in_fragment(schema):
-    return all(e['pk'] == 'explicit' for e in schema['ents'])
+    return all(e['pk'] == 'explicit' and not e.get('hooks') for e in schema['ents'])
+
+
+HELPER_KINDS = ('count', 'ids', 'big', 'exists')
+BIG = 'lambda x: x.s0 > 1'        # one query text, used by the hooks and by the application's reads
 
 
 class ShadowError(Exception):
@@ -142,6 +152,16 @@ class World:
                 dicts[sd['ent']][name] = attr
                 self.relattr[(i, sn == 'b')] = attr
                 self.relname[(i, sn == 'b')] = name
+        self.hook_calls = 0
+        self.has_hooks = any(ed.get('hooks') for ed in schema['ents'])
+        world = self
+        for e, ed in enumerate(schema['ents']):
+            for h in ed.get('hooks') or ():
+                def hook(obj, _h=h):
+                    world.hook_calls += 1
+                    for e2 in range(len(world.classes)):
+                        for kind in HELPER_KINDS: world.helper(kind, e2)
+                dicts[e]['before_' + h] = hook
         self.classes = [type('E%d' % e, (db.Entity,), dicts[e]) for e in range(nent)]
         db.bind('sqlite', self.path, create_db=True, factory=make_factory(self.log))
         db.generate_mapping(create_tables=True)
@@ -192,6 +212,14 @@ class World:
         k = r['kind']
         if k == 'm2o': k = 'o2m' if self.sides[key]['coll'] else 'm2o'
         return k
+
+    def helper(self, kind, e):
+        """the query helpers shared by the before_* hooks and the application's reads (one call site each: one query key)"""
+        cls = self.classes[e]
+        if kind == 'count': return cls.select().count()
+        if kind == 'ids': return cls.select()[:]
+        if kind == 'big': return cls.select(BIG)[:]
+        return cls.select(BIG).exists()
 
     def close(self):
         try: self.db.disconnect()
@@ -1264,7 +1292,21 @@ class Run:
             e = rng.randrange(len(w.classes)); cls = w.classes[e]; ed = w.schema['ents'][e]
             liv = sh.live(e)
             form = rng.choice(['getitem', 'get_pk', 'get_kw', 'exists_kw', 'get_unique', 'get_ckey', 'get_rel', 'select_all', 'select_kw',
-                               'select_gen', 'select_lambda', 'count', 'sum', 'max', 'min', 'to_dict', 'to_dict_coll'])
+                               'select_gen', 'select_lambda', 'count', 'sum', 'max', 'min', 'to_dict', 'to_dict_coll', 'helper'])
+            if w.has_hooks and rng.random() < 0.45: form = 'helper'
+            if form == 'helper':
+                # the application asks through the helpers the hooks use (same query keys): right after the flush the hooks ran in - the
+                # flush may be the one this very read triggers - the answers are those of the database AFTER the flush
+                kinds = list(HELPER_KINDS); rng.shuffle(kinds)
+                big = sorted(oid for oid in liv if sh.objs[oid]['vals']['s0'] is not None and sh.objs[oid]['vals']['s0'] > 1)
+                hk = 'with-hooks' if w.has_hooks else 'entity'
+                for kind in kinds[:rng.choice([1, 2, 4])]:
+                    if self.stop: return
+                    if kind == 'count': self_rd('helper-count', hk, lambda: w.helper('count', e), len(liv))
+                    elif kind == 'ids': self_rd('helper-ids', hk, lambda: sorted(self.oid_of(x) for x in w.helper('ids', e)), sorted(liv))
+                    elif kind == 'big': self_rd('helper-big', hk, lambda: sorted(self.oid_of(x) for x in w.helper('big', e)), big)
+                    else: self_rd('helper-exists', hk, lambda: w.helper('exists', e), bool(big))
+                continue
             known = [o for o in sh.objs.values() if o['ent'] == e and o['pk'] is not None]
             if form in ('getitem', 'get_pk'):
                 if not known: continue
@@ -1561,7 +1603,9 @@ def explore(ctx, prop, nhist, nops):
             for e in schema['ents']: ctx.count('schema:pk:' + e['pk'])
             for r in schema['rels']: ctx.count('schema:rel:' + r['kind'])
             ctx.count('schema:in-model-fragment' if run.w.fragment else 'schema:oracle-only')
+            if run.w.has_hooks: ctx.count('schema:with-before-hooks')
             run.run()
+            if run.w.hook_calls: ctx.count('history:hooks-ran-queries'); ctx.count('hook-calls:total', run.w.hook_calls)
             ctx.case({'schema': schema, 'nops': len(run.ops), 'h': h}, nontrivial=True, kind='history')
             for i, op in enumerate(run.ops): ctx.case({'h': h, 'i': i, 'op': {k: v for k, v in op.items() if k != 'rs'}}, nontrivial=True, kind='call')
             for f in run.findings:
